@@ -75,7 +75,7 @@ class _Tmp:
            anchors=["polyply.src.simple_seq_parsers:_parse_plain", "polyply.src.simple_seq_parsers:_monomers_to_linear_nx_graph"],
            selector_only=True, must_cover=["accepted", "rejected", "single"],
            outside=["characters outside the stated alphabet", "sequences longer than the bound", "the name of a single nucleotide that is both 5' and 3' end"],
-           bounds={"quick": dict(nmax=3, alpha=ALPHA_Q), "thorough": dict(nmax=4, alpha=ALPHA_T)},
+           bounds={"quick": dict(nmax=3, alpha=ALPHA_Q), "thorough": dict(nmax=3, alpha=ALPHA_T)},
            budget={"quick": 200, "thorough": 1500})
 def plain(sx, B):
     """Real _parse_plain on a one-letter sequence whose length (1..nmax) and every character (selector over upper-case letters
@@ -111,7 +111,7 @@ def plain(sx, B):
            outside=[".txt files with blank lines or several spaces between names (the statement restricts .txt to single-space separated)",
                     "more than one sequence per file", "circular sequences shorter than 3"],
            bounds={"quick": dict(nmax=3, alpha=list("ACGTV"), names=["PEO", "PS", "A"]),
-                   "thorough": dict(nmax=5, alpha=list("ACGTVOX"), names=["PEO", "PS", "A", "DA5"])},
+                   "thorough": dict(nmax=4, alpha=list("ACGTVOX"), names=["PEO", "PS", "A", "DA5"])},
            budget={"quick": 200, "thorough": 1500})
 def files(sx, B):
     """Real MetaMolecule.from_sequence_file on .ig/.fasta/.txt files written into a per-path temp directory: sequence letters /
@@ -188,7 +188,7 @@ def _tree_edges(b, levels):
                     "polyply.src.gen_seq:_branched_graph", "polyply.src.simple_seq_parsers:parse_json"],
            rejects=(), selector_only=True, must_cover=["read back", "connect", "termini", "tag"],
            outside=["residue mixes with probabilities below 1 (statistical)", "macros from files", "more than 3 macros in a sequence"],
-           bounds={"quick": dict(levels=(1, 2), bf=(1, 2), seqlen=2), "thorough": dict(levels=(1, 3), bf=(1, 3), seqlen=3)},
+           bounds={"quick": dict(levels=(1, 2), bf=(1, 2), seqlen=2), "thorough": dict(levels=(1, 3), bf=(1, 2), seqlen=3)},
            budget={"quick": 200, "thorough": 1500})
 def genseq(sx, B):
     """Real gen_seq (MacroString, _branched_graph, generate_seq_graph, _add_edges, _apply_termini_modifications, _tag_nodes) writes
